@@ -78,7 +78,7 @@ def plan(tier, seed):
     def numerals():
         return bounded.run_native("c01_numerals", {"max_len": L, "long_max": 40,
                                                   "known": bounded.known_for("C01", "C01-N")})
-    ntok = 4 if tier == "quick" else 6
+    ntok = 4 if tier == "quick" else 7
 
     def roundtrip():
         return bounded.run_native("c01_roundtrip", {"max_tokens": ntok, "seed": seed, "want": ["C01"],
